@@ -5,7 +5,7 @@ from spec import nl_spec
 PC = repo("pyModeS.py_common")
 P = "pyModeS.py_common."
 DELTA = 1e-9          # within this distance of a transition latitude either neighbouring value is allowed
-NLUSERS = ("C06", "C03", "C04", "C05", "C17")
+NLUSERS = ("C06", "C03", "C04", "C05")
 from spec.nl_table import TRANSITION
 
 
@@ -107,7 +107,7 @@ def cprnl_near_equator(lat):
     assert PC.cprNL(lat) == 59, "cprNL == 59 next to the equator"
 
 
-@harness(("C03", "C04", "C05", "C17"), inputs={}, kind="table",
+@harness(("C03", "C04", "C05"), inputs={}, kind="table",
          note="grid-margin lemma: lets the CPR decoders use cprNL == NL on decoded latitudes although the cprNL "
               "contract allows either neighbour within 1e-9 degree of a transition latitude")
 def cpr_grid_latitudes_avoid_transitions():
